@@ -24,7 +24,30 @@ RESP_C = b"HTTP/1.1 404 Not Found\r\nServer: lighttpd\r\nContent-Type: text/plai
 # heads with bare LF line ends (accepted by the parser) followed by bodies that contain CRLF CRLF / LF LF and binary bytes
 REQ_D = b"POST /lf HTTP/1.1\nHost: lf.example\nUser-Agent: lf-agent/1.0\nTransfer-Encoding: chunked\n\n" + b"5\r\nhello\r\n0\r\n\r\n" + b"\x00\xff\n\nrest"
 RESP_D = b"HTTP/1.1 200 OK\nServer: lf-server\nContent-Type: text/plain\nTransfer-Encoding: chunked\n\n" + b"3\r\nabc\r\n0\r\n\r\n"
-PAIRS = [(REQ_A, RESP_A), (REQ_B, RESP_B), (REQ_C, RESP_C), (REQ_D, RESP_D)]
+# cleartext HTTP/2 with two concurrent streams, the server answering the higher-numbered stream first: the request is the first
+# HEADERS frame of the client, the response the first HEADERS frame of the server
+def _h2f(t, fl, st, pl):
+    return bytes([0, len(pl) >> 8, len(pl) & 255, t, fl, 0, 0, 0, st]) + pl
+
+
+_H2_PRE = b"PRI * HTTP/2.0\r\n\r\nSM\r\n\r\n" + _h2f(4, 0, 0, b"")
+_H2_REQ1 = _h2f(1, 5, 1, bytes([0x82, 0x86, 0x84, 0x0f, 0x2b, 7]) + b"agent/1")          # GET http / + user-agent (static 58)
+_H2_REQ3 = _h2f(1, 5, 3, bytes([0x82, 0x86, 0x85]))
+REQ_E = _H2_PRE + _H2_REQ1 + _H2_REQ3 + _h2f(6, 0, 0, bytes(8))
+_H2_RESP3 = _h2f(1, 5, 3, bytes([0x8d, 0x0f, 0x27, 5]) + b"quick")                        # 404, server: quick (static 54)
+_H2_RESP1 = _h2f(1, 5, 1, bytes([0x88, 0x0f, 0x27, 5]) + b"nginx")                        # 200, server: nginx
+RESP_E = _h2f(4, 0, 0, b"") + _H2_RESP3 + _H2_RESP1 + _h2f(0, 1, 1, b"body")
+HEADLEN = {REQ_E: len(_H2_PRE + _H2_REQ1), RESP_E: len(_h2f(4, 0, 0, b"") + _H2_RESP3)}
+PAIRS = [(REQ_A, RESP_A), (REQ_B, RESP_B), (REQ_C, RESP_C), (REQ_D, RESP_D), (REQ_E, RESP_E)]
+
+
+def head_only(m):
+    """the message head: up to and including the first blank line (whichever line-end style comes first); for HTTP/2 up to the end
+    of the first HEADERS frame"""
+    if m in HEADLEN:
+        return m[:HEADLEN[m]]
+    ends = [m.find(t) + len(t) for t in (b"\r\n\r\n", b"\n\n") if m.find(t) >= 0]
+    return m[:min(ends)]
 
 
 def frame(src, dst, sport, dport, seq, ack, flags, payload):
@@ -49,10 +72,6 @@ def run(tier, v):
         raise vlib.ToolError("HttpReasm.tla violates its invariants (%s)" % rA.inv_violated)
     # one-shot references
     req = os.path.join(wd, "base.req")
-    def head_only(m):
-        """the message head: up to and including the first blank line (whichever line-end style comes first)"""
-        ends = [m.find(t) + len(t) for t in (b"\r\n\r\n", b"\n\n") if m.find(t) >= 0]
-        return m[:min(ends)]
     # the reference is the report for the head delivered alone: what follows the blank line and how the bytes are cut must not matter
     vlib.write_ndjson(req, [{"id": 2 * i, "op": "parse", "kind": "req", "datas": [head_only(p[0]).hex()]} for i, p in enumerate(PAIRS)] +
                       [{"id": 2 * i + 1, "op": "parse", "kind": "resp", "datas": [head_only(p[1]).hex()]} for i, p in enumerate(PAIRS)])
@@ -78,7 +97,7 @@ def run(tier, v):
         return out
     M32 = 1 << 32
     for pi, (R, S) in enumerate(PAIRS):
-        hl_c = R.index(b"\r\n\r\n") + 4
+        hl_c = len(head_only(R))
         isns = [(1000, 5000), ((1 << 31) - 40, (1 << 31) + 7), (M32 - 1, M32 - 2), (M32 - 1 - hl_c // 2, M32 - 1 - 20), (M32 - len(R) + 3, M32 - len(S)), (M32 - len(R) - 5, 77)]
         # every 2-cut of the request, response in one piece; and vice versa
         step = 1 if tier == "thorough" else 3
@@ -147,7 +166,7 @@ def run(tier, v):
                     n_rep += 1
                     dg = hashlib.sha1(json.dumps(mine, sort_keys=True).encode()).hexdigest()
                     outs.append("ok" if dg == base[2 * s["pair"] + (0 if d == "c" else 1)] else "garbled")
-            conn = {"hlen": {"c": R.index(b"\r\n\r\n") + 4, "s": S.index(b"\r\n\r\n") + 4},
+            conn = {"hlen": {"c": len(head_only(R)), "s": len(head_only(S))},
                     "wrap": {"c": (M32 - (s["isn"]["c"] + 1)) if s["isn"]["c"] + 1 + len(R) > M32 else -1,
                              "s": (M32 - (s["isn"]["s"] + 1)) if s["isn"]["s"] + 1 + len(S) > M32 else -1}}
             segs = [{"dir": d, "off": s["pieces"][d][k][0], "len": s["pieces"][d][k][1]} for d, k in s["order"]]
